@@ -6,6 +6,11 @@ R14.1  node-kind coverage: the set of mypy.nodes / mypy.patterns classes the def
 R14.2  semantic-flag agreement: per node class, the non-position attributes set after construction
        or through constructor keywords agree between the two front ends (branch-sensitive tracking
        of which constructor a local came from); differences tabled.
+R14.4  overload merging: in both front ends every multi-statement list that becomes a Block body
+       or the module body went through fix_function_overloads; the native front end's shortcut
+       (skip the pass when fewer than two functions were read below) rests on a monotone counter:
+       State.num_funcs is only initialised to 0 and incremented, and the gate compares it with the
+       value saved on entry.
 R14.3  position clamps: in Errors.report the construction of ErrorInfo is dominated by the two
        defensive normalisations (end_line >= line; on one line end_column > column).
 """
@@ -189,6 +194,8 @@ def run(chk: Check) -> None:
             else:
                 r2.violation(f"{c}.{attr} set only by nativeparse", f"mypy/nativeparse.py:{y[attr]}", f"the native parser sets {c}.{attr}, the default parser never does")
 
+    run_overloads(chk, ix)
+
     r3 = chk.rule("R14.3", "Errors.report clamps end_line >= line and (same line) end_column > column before the ErrorInfo is built", floor=2)
     rp = ix.func("mypy.errors.Errors.report")
     g = CFG(rp.node)
@@ -223,3 +230,74 @@ def run(chk: Check) -> None:
         r3.ok("ErrorInfo receives the clamped locals (line, column, end_line, end_column)", rp.loc(ctor[0].stmt))
     else:
         r3.violation("ErrorInfo receives the clamped locals (line, column, end_line, end_column)", rp.loc(ctor[0].stmt), f"position keywords: { {k: kws.get(k) for k in ('line', 'column', 'end_line', 'end_column')} }")
+
+
+def run_overloads(chk: Check, ix) -> None:
+    r4 = chk.rule("R14.4", "both front ends merge overloads in every statement list (Block / module body); the native front end's `fewer than two functions` shortcut relies on State.num_funcs being initialised once and only incremented", floor=6)
+    fp = ix.module("mypy.fastparse")
+    npm = ix.module("mypy.nativeparse")
+    # fastparse: Block(x) with a translated list => x passes fix_function_overloads
+    for q, f in sorted(ix.functions.items()):
+        if f.module is not fp or f.parent is not None:
+            continue
+        for n in ast.walk(f.node):
+            if isinstance(n, ast.Call) and call_name(n) == "Block" and n.args:
+                a = n.args[0]
+                if any(isinstance(x, ast.Call) and call_name(x) == "translate_stmt_list" for x in ast.walk(a)):
+                    key = f"{q}: Block body from translate_stmt_list goes through fix_function_overloads"
+                    if isinstance(a, ast.Call) and call_name(a) == "fix_function_overloads":
+                        r4.ok(key, f.loc(n))
+                    else:
+                        r4.violation(key, f.loc(n), "a translated statement list becomes a block without overload merging")
+    # nativeparse: Block(<name>) where the name holds several statements => it came from read_statements
+    for q, f in sorted(ix.functions.items()):
+        if f.module is not npm or f.parent is not None:
+            continue
+        for n in ast.walk(f.node):
+            if isinstance(n, ast.Call) and call_name(n) == "Block" and n.args and isinstance(n.args[0], ast.Name):
+                nm = n.args[0].id
+                defs = [a.value for a in ast.walk(f.node) if isinstance(a, ast.Assign) and isinstance(a.targets[0], ast.Name) and a.targets[0].id == nm]
+                key = f"{q}: Block({nm}) body was read by read_statements"
+                if defs and all(isinstance(d, ast.Call) and call_name(d) == "read_statements" for d in defs):
+                    r4.ok(key, f.loc(n))
+                else:
+                    r4.violation(key, f.loc(n), f"`{nm}` is not (only) the result of read_statements: overloads in this block are not merged under --native-parser")
+    rs = ix.func("mypy.nativeparse.read_statements")
+    calls = [c for c in ast.walk(rs.node) if isinstance(c, ast.Call) and call_name(c) == "fix_function_overloads"]
+    if not calls:
+        r4.violation("read_statements applies fix_function_overloads", rs.loc(), "the native front end no longer merges overloads")
+        return
+    from ..cfg import branch_conditions
+    pos, neg = branch_conditions(npm.parents(), rs.node, [st for st in ast.walk(rs.node) if isinstance(st, ast.stmt) and any(c is calls[0] for c in ast.walk(st))][-1])
+    gate = [t for t in pos if "num_funcs" in norm(t)]
+    if not pos and not neg:
+        r4.ok("read_statements applies fix_function_overloads unconditionally", rs.loc(calls[0]))
+    elif len(pos) == 1 and gate and not neg:
+        saved = [a for a in rs.node.body if isinstance(a, ast.Assign) and norm(a.value) == "state.num_funcs" and isinstance(a.targets[0], ast.Name)]
+        first_is_save = bool(saved) and rs.node.body.index(saved[0]) <= 1
+        sv = saved[0].targets[0].id if saved else "?"
+        if first_is_save and norm(gate[0]) == f"state.num_funcs > {sv} + 1":
+            r4.ok("read_statements: the shortcut is `state.num_funcs > <value on entry> + 1`", rs.loc(calls[0]))
+        else:
+            r4.violation("read_statements: the shortcut is `state.num_funcs > <value on entry> + 1`", rs.loc(calls[0]), f"gate `{norm(gate[0])}` no longer compares the running count with the count saved on entry")
+        # monotone counter: who may write State.num_funcs
+        for q, f in sorted(ix.functions.items()):
+            if f.module is not npm or f.parent is not None:
+                continue
+            for n in ast.walk(f.node):
+                tgt = None
+                if isinstance(n, ast.Assign):
+                    tgt = [t for t in n.targets if isinstance(t, ast.Attribute) and t.attr == "num_funcs"]
+                elif isinstance(n, (ast.AugAssign, ast.AnnAssign)) and isinstance(n.target, ast.Attribute) and n.target.attr == "num_funcs":
+                    tgt = [n.target]
+                if not tgt:
+                    continue
+                key = f"{q}: `{norm(n)}` keeps State.num_funcs monotone"
+                init = f.name == "__init__" and isinstance(n, (ast.Assign, ast.AnnAssign)) and isinstance(n.value, ast.Constant) and n.value.value == 0
+                inc = isinstance(n, ast.AugAssign) and isinstance(n.op, ast.Add) and isinstance(n.value, ast.Constant) and isinstance(n.value.value, int) and n.value.value > 0
+                if init or inc:
+                    r4.ok(key, f.loc(n))
+                else:
+                    r4.violation(key, f.loc(n), "the counter of functions read so far is lowered or overwritten: an enclosing statement list then sees `fewer than two functions below` and skips overload merging, so conditional overloads nested in `if` blocks are not joined with the items outside (the default parser merges every list)")
+    else:
+        r4.violation("read_statements: overload merging is skipped only by the function-count shortcut", rs.loc(calls[0]), f"fix_function_overloads is guarded by {[norm(t) for t in pos + neg]}")
